@@ -275,7 +275,8 @@ func runC18(w *W) {
 				ref, refErr = out, err != nil
 				continue
 			}
-			if (err != nil) != refErr || !bytes.Equal(out, ref) {
+			// what a failed conversion leaves in the caller's buffer is not specified: only the verdicts are compared then
+			if (err != nil) != refErr || (!refErr && !bytes.Equal(out, ref)) {
 				w.Failf("flavours-disagree", map[string]string{"flavour": name}, "%s and %s disagree on doc %d\n%s: err=%v %x\n%s: err=%v %x\njson: %s", flavourNames[fls[0]], name, di, flavourNames[fls[0]], refErr, clipb(ref, 300), name, err, clipb(out, 300), clip(d.js, 300))
 			}
 			w.Count("flavour_agreement_" + name)
@@ -314,7 +315,7 @@ func runC18(w *W) {
 				ref, refErr = out, err != nil
 				continue
 			}
-			if (err != nil) != refErr || !bytes.Equal(out, ref) {
+			if (err != nil) != refErr || (!refErr && !bytes.Equal(out, ref)) {
 				w.Failf("flavours-disagree", map[string]string{"flavour": name, "root_scalar": "true"}, "%s and %s disagree on the root-level %s %q (followed by %q in the caller's buffer)\n%s: err=%v %x\n%s: err=%v %x", flavourNames[fls[0]], name, typeName(rs.f.T), rs.js, rs.tail, flavourNames[fls[0]], refErr, ref, name, err, out)
 			}
 		}
